@@ -31,6 +31,7 @@ import (
 	"net/http"
 	"path/filepath"
 	"sort"
+	"strconv"
 	"strings"
 	"sync"
 	"time"
@@ -679,6 +680,15 @@ func (d *drv) replaceLeaves(doc *docgen.Doc, hi int, base *obs) {
 	if len(times) > 0 && (doc.Features["int-doc"] || d.rng.Intn(4) == 0) {
 		d.timeSweep(doc, hi, times[d.rng.Intn(len(times))])
 	}
+	var dbls []docgen.Leaf
+	for _, lf := range doc.Leaves {
+		if (lf.Kind == "double-string" || lf.Kind == "double-native") && !hasIndex(lf.DocPath) {
+			dbls = append(dbls, lf)
+		}
+	}
+	if len(dbls) > 0 && (doc.Features["int-doc"] || d.rng.Intn(2) == 0) {
+		d.doubleSweep(doc, hi, base, dbls[d.rng.Intn(len(dbls))])
+	}
 	nSweep := d.cfg.Pick(1, 3)
 	if doc.Features["int-doc"] {
 		nSweep = len(ints)
@@ -825,6 +835,51 @@ func boundaryInts(dt string) []*big.Int {
 	return out
 }
 
+// intRange: the inclusive range of the XSD integer type dt under a field of prime p
+// (Value/Theory.v lo/hi): integer [-(p-1)/2,(p-1)/2], positive [1,p-1], nonNegative [0,p-1],
+// negative [-(p-1)/2,-1], nonPositive [-(p-1)/2,0].
+func intRange(dt string, p *big.Int) (lo, hi *big.Int) {
+	h := new(big.Int).Rsh(new(big.Int).Sub(p, big.NewInt(1)), 1)
+	nh := new(big.Int).Neg(h)
+	pm1 := new(big.Int).Sub(p, big.NewInt(1))
+	switch dt {
+	case xsd + "positiveInteger":
+		return big.NewInt(1), pm1
+	case xsd + "nonNegativeInteger":
+		return big.NewInt(0), pm1
+	case xsd + "negativeInteger":
+		return nh, big.NewInt(-1)
+	case xsd + "nonPositiveInteger":
+		return nh, big.NewInt(0)
+	default:
+		return nh, h
+	}
+}
+
+// rangeInts: the neighbours of the range ends on both sides, and -2..2, p-2..p+1, +-(p-1)/2 +- 1.
+func rangeInts(dt string, p *big.Int) []*big.Int {
+	lo, hi := intRange(dt, p)
+	h := new(big.Int).Rsh(new(big.Int).Sub(p, big.NewInt(1)), 1)
+	var out []*big.Int
+	seen := map[string]bool{}
+	add := func(z *big.Int, d int64) {
+		v := new(big.Int).Add(z, big.NewInt(d))
+		if !seen[v.String()] {
+			seen[v.String()] = true
+			out = append(out, v)
+		}
+	}
+	for _, d := range []int64{-2, -1, 0, 1, 2} {
+		add(lo, d)
+		add(hi, d)
+		add(big.NewInt(0), d)
+		add(p, d)
+		add(h, d)
+		add(new(big.Int).Neg(h), d)
+	}
+	return out
+}
+
 // boundarySweep: one integer-typed leaf takes every boundary value in turn (written as a
 // string; exactly representable ones also as JSON numbers): all accepted documents must have
 // pairwise DIFFERENT roots (different integers have different encodings: C04 / C03_value_binding_int),
@@ -835,6 +890,23 @@ func (d *drv) boundarySweep(doc *docgen.Doc, hi int, lf docgen.Leaf) {
 		return // keep D21 (sibling renumbering through lexical forms) out of this oracle
 	}
 	vals := boundaryInts(lf.Fact.Datatype)
+	prime := d.hs[hi].Prime()
+	lo, hiV := intRange(lf.Fact.Datatype, prime)
+	if doc.Features["int-doc"] {
+		// the ends of the type's range under this hasher's prime, and their outside neighbours
+		vals = append(vals, rangeInts(lf.Fact.Datatype, prime)...)
+	}
+	{
+		seen := map[string]bool{}
+		var uniq []*big.Int
+		for _, z := range vals {
+			if !seen[z.String()] {
+				seen[z.String()] = true
+				uniq = append(uniq, z)
+			}
+		}
+		vals = uniq
+	}
 	roots := map[string]string{} // root -> value
 	docs := map[string]string{}
 	nTree := 0
@@ -851,6 +923,15 @@ func (d *drv) boundarySweep(doc *docgen.Doc, hi int, lf docgen.Leaf) {
 		v, _ := json.Marshal(obj)
 		o, _, ds := d.observe(v, hi)
 		d.rep.Count("boundary-int:" + o.Class)
+		inRange := z.Cmp(lo) >= 0 && z.Cmp(hiV) <= 0
+		if o.Class == "ok" && !inRange {
+			d.fail(fmt.Sprintf("the %s field at %v accepts the out-of-range value %s (range %s..%s)", lf.Fact.Datatype, lf.DocPath, z, lo, hiV),
+				failInput{Kind: "range", Class: "c03-out-of-range-accepted", Doc: string(v), Hasher: hi, Leaf: &lf, Siblings: 1, Note: "out"})
+		}
+		if o.Class != "ok" && inRange {
+			d.fail(fmt.Sprintf("the %s field at %v rejects the in-range value %s: %s", lf.Fact.Datatype, lf.DocPath, z, o.Msg),
+				failInput{Kind: "range", Class: "c03-in-range-rejected", Doc: string(v), Hasher: hi, Leaf: &lf, Siblings: 1, Note: "in"})
+		}
 		if o.Class != "ok" {
 			continue
 		}
@@ -874,6 +955,92 @@ func (d *drv) boundarySweep(doc *docgen.Doc, hi int, lf docgen.Leaf) {
 		if ds != nil && z.BitLen() >= 63 && nTree < d.cfg.Pick(3, 8) && d.rng.Intn(3) == 0 {
 			nTree++
 			d.treeCase(ds, hi, failInput{Kind: "doc-dataset", Doc: string(v), Hasher: hi, Note: "boundary-int"}, o.Root, 1)
+		}
+	}
+}
+
+// doubleSpellings: equivalent lexical forms of one xsd:double: canonical, mantissa with
+// trailing zeros, exponent with leading zeros / explicit sign, shifted mantissa, lower-case e,
+// plain decimal.
+func doubleSpellings(f float64) []string {
+	c := ld.GetCanonicalDouble(f) // d.dddE<exp>
+	i := strings.IndexByte(c, 'E')
+	out := []string{c, strconv.FormatFloat(f, 'f', -1, 64), strconv.FormatFloat(f, 'e', -1, 64), strconv.FormatFloat(f, 'E', -1, 64)}
+	if i < 0 {
+		return out
+	}
+	mant, exps := c[:i], c[i+1:]
+	e, err := strconv.Atoi(exps)
+	if err != nil {
+		return out
+	}
+	sign, abs := "", e
+	if e < 0 {
+		sign, abs = "-", -e
+	}
+	out = append(out, mant+"0E"+exps, mant+"00E"+exps, fmt.Sprintf("%sE%s0%d", mant, sign, abs), fmt.Sprintf("%sE%s00%d", mant, sign, abs),
+		fmt.Sprintf("%s0E%s0%d", mant, sign, abs), strings.ToLower(c), mant+"e"+exps+"")
+	if e >= 0 {
+		out = append(out, mant+"E+"+exps, mant+"e+0"+exps)
+	}
+	neg := strings.HasPrefix(mant, "-")
+	m := strings.TrimPrefix(mant, "-")
+	digits := strings.Replace(m, ".", "", 1) // d ddd
+	pre := ""
+	if neg {
+		pre = "-"
+	}
+	out = append(out, fmt.Sprintf("%s0.%sE%d", pre, digits, e+1), fmt.Sprintf("%s0.0%sE%d", pre, digits, e+2))
+	if len(digits) >= 2 {
+		out = append(out, fmt.Sprintf("%s%s.%sE%d", pre, digits[:2], digits[2:]+"0", e-1))
+	}
+	seen := map[string]bool{}
+	var res []string
+	for _, s := range out {
+		if g, err := strconv.ParseFloat(s, 64); err == nil && g == f && !seen[s] {
+			seen[s] = true
+			res = append(res, s)
+		}
+	}
+	return res
+}
+
+// doubleSweep: one xsd:double leaf (no array on the way, so no sibling renumbering) is
+// written in every equivalent lexical form: all must give the base root.
+func (d *drv) doubleSweep(doc *docgen.Doc, hi int, base *obs, lf docgen.Leaf) {
+	obj, err := parseDoc(doc.Bytes)
+	if err != nil {
+		return
+	}
+	sl, sib, ok := nav(obj, lf.DocPath)
+	if !ok || sib != 1 {
+		return
+	}
+	var f float64
+	switch x := sl.get().(type) {
+	case float64:
+		f = x
+	case string:
+		if f, err = strconv.ParseFloat(x, 64); err != nil {
+			return
+		}
+	default:
+		return
+	}
+	for _, sp := range doubleSpellings(f) {
+		sl.set(sp)
+		v, _ := json.Marshal(obj)
+		o, _, _ := d.observe(v, hi)
+		d.rep.Count("double-spelling:" + o.Class)
+		if o.Class != "ok" || o.Root != base.Root {
+			class := classifySpelling(base, o, lf, sib, true, false)
+			got := o.Class + " " + o.Msg
+			if o.Class == "ok" {
+				got = "root " + o.Root
+			}
+			d.fail(fmt.Sprintf("the xsd:double at %v written as %q changes the result: %s vs root %s", lf.DocPath, sp, got, base.Root),
+				failInput{Kind: "pair-same", Class: class, Doc: string(doc.Bytes), Other: string(v), Hasher: hi, Leaf: &lf, Siblings: sib, Lexical: true})
+			return
 		}
 	}
 }
@@ -1032,6 +1199,12 @@ func (d *drv) intDoc() *docgen.Doc {
 		leaves = append(leaves, docgen.Leaf{DocPath: []string{term}, Raw: raw, Kind: "int-string",
 			Fact: docgen.Fact{Pattern: V + term, Value: "int:" + raw, Datatype: dt}})
 	}
+	ctx["d0"] = map[string]any{"@id": V + "d0", "@type": docgen.XSD + "double"}
+	f0 := []float64{1.5, 0.15, 360.734375, -2.5e-3, 170000, 1, 0, 123456789.125}[d.rng.Intn(8)]
+	d0 := strconv.FormatFloat(f0, 'f', -1, 64)
+	obj["d0"] = d0
+	leaves = append(leaves, docgen.Leaf{DocPath: []string{"d0"}, Raw: d0, Kind: "double-string",
+		Fact: docgen.Fact{Pattern: V + "d0", Value: "str:" + ld.GetCanonicalDouble(f0), Datatype: docgen.XSD + "double"}})
 	ctx["t0"] = map[string]any{"@id": V + "t0", "@type": docgen.XSD + "dateTime"}
 	t0 := time.Unix(int64(d.rng.Intn(2_000_000_000)), 0).UTC().Format(time.RFC3339)
 	obj["t0"] = t0
@@ -1539,6 +1712,12 @@ func (d *drv) replay(path string) error {
 			}
 			in.Class = class
 			d.fail("equivalent documents give different results: "+diff, in)
+		}
+	case "range":
+		a, _, _ := d.observe([]byte(in.Doc), in.Hasher)
+		show("document", a)
+		if (a.Class == "ok") != (in.Note == "in") {
+			d.fail("acceptance of the integer value does not match the range of its type: "+a.Class+" "+a.Msg, in)
 		}
 	case "ctx-url":
 		var nt struct {
